@@ -2,6 +2,35 @@
 import z3
 
 
+_STR_CACHE = {}
+
+
+def has_strings(t):
+    """does the term contain a string/sequence-sorted subterm?"""
+    tid = t.get_id()
+    if tid in _STR_CACHE:
+        return _STR_CACHE[tid]
+    seen = set()
+    stack = [t]
+    found = False
+    while stack:
+        x = stack.pop()
+        i = x.get_id()
+        if i in seen:
+            continue
+        seen.add(i)
+        k = x.sort().kind()
+        if k == z3.Z3_SEQ_SORT or k == z3.Z3_RE_SORT:
+            found = True
+            break
+        if z3.is_app(x):
+            stack.extend(x.children())
+        elif z3.is_quantifier(x):
+            stack.append(x.body())
+    _STR_CACHE[tid] = found
+    return found
+
+
 class PathEnd(Exception):
     """The current path is abandoned (infeasible, or cut at a loop head after the inductive step)."""
 
@@ -35,6 +64,10 @@ class Path:
         self.pc = []
         self.solver = z3.Solver()
         self.solver.set('timeout', self.FEAS_TIMEOUT_MS)
+        # feasibility of string-free branch conditions is decided on the string-free part of the path condition
+        # (an over-approximation: it can only keep more paths alive, never drop a feasible one)
+        self.arith = z3.Solver()
+        self.arith.set('timeout', self.FEAS_TIMEOUT_MS)
         self.alternatives = []
         self.obligations = []
         self.known = {}
@@ -45,6 +78,7 @@ class Path:
         self.notes = []
         self.bounded = []     # notes of bounded unrollings
         self.ghost = {}
+        self.inputs = {}
 
     def fresh_name(self, hint):
         self.counter += 1
@@ -57,12 +91,15 @@ class Path:
             return
         self.pc.append(t)
         self.solver.add(t)
+        if not has_strings(t):
+            self.arith.add(t)
 
     def feasible(self, c):
-        self.solver.push()
-        self.solver.add(c)
-        r = self.solver.check()
-        self.solver.pop()
+        s = self.solver if has_strings(c) else self.arith
+        s.push()
+        s.add(c)
+        r = s.check()
+        s.pop()
         return r != z3.unsat
 
     def branch(self, c):
@@ -79,8 +116,10 @@ class Path:
         if self.idx < len(self.prefix):
             d = self.prefix[self.idx]
         else:
-            can_t = self.feasible(c)
+            # refutations are fast, models of the calendar closed forms are slow: ask for the refutation first and
+            # skip the satisfiability question when one side is already excluded
             can_f = self.feasible(z3.Not(c))
+            can_t = True if not can_f else self.feasible(c)
             if can_t and can_f:
                 self.alternatives.append(self.taken + [False])
                 d = True
